@@ -221,6 +221,20 @@ func jsonStructure(v interface{}) interface{} {
 		return "$" + string(t)
 	case int64:
 		return json.Number(strconv.FormatInt(t, 10))
+	case int:
+		return json.Number(strconv.FormatInt(int64(t), 10))
+	case int32:
+		return json.Number(strconv.FormatInt(int64(t), 10))
+	case int16:
+		return json.Number(strconv.FormatInt(int64(t), 10))
+	case int8:
+		return json.Number(strconv.FormatInt(int64(t), 10))
+	case []map[string]interface{}:
+		out := []interface{}{}
+		for _, x := range t {
+			out = append(out, jsonStructure(x))
+		}
+		return out
 	case float64:
 		return json.Number(strconv.FormatFloat(t, 'g', -1, 64))
 	case float32:
